@@ -163,6 +163,37 @@ def sampler_selection(repo, chk, prefix):
                            for x in walk_term(rt))
             if over_set:
                 chk.bad(f'{prefix}.2', 'R15', site, f'{desc}: {ast.unparse(res.returned)[:160]}', 'the selection sorts a *set* of the candidates: candidates with equal counts come out in set-iteration order (hash dependent), not in candidate-list order; ' + why)
+            elif filtered and any(isinstance(x, tuple) and x and x[0] == 'sub' and isinstance(x[2], tuple) and x[2] and x[2][0] == 'slice' for x in walk_term(rt)) and \
+                    all(c_[0] == 'cmp' and c_[1] in ('==', '!=') and any(isinstance(y, tuple) and y[:2] in (('call', ('name', 'min')), ('call', ('lib', 'numpy.min'))) for y in walk_term(c_))
+                        for x in walk_term(rt) if isinstance(x, tuple) and x and x[0] in ('listcomp', 'genexp') for g in x[2] for c_ in g[1]):
+                # the candidates are split at the MINIMUM count (== min / != min): all members of the first layer are equally evaluated, so their list order
+                # is their order in the stable sort.  The layer above the minimum holds different counts: it has to be sorted by count before it is appended.
+                def _unsorted_rest(t, inside_sorted=False):
+                    if isinstance(t, tuple) and t[:2] in (('call', ('name', 'sorted')), ('call', ('lib', 'heapq.nsmallest'))):
+                        inside_sorted = True
+                    if isinstance(t, tuple) and t and t[0] in ('listcomp', 'genexp') and not inside_sorted and any(c_[0] == 'cmp' and c_[1] == '!=' for g in t[2] for c_ in g[1]):
+                        return True
+                    return isinstance(t, tuple) and any(_unsorted_rest(x, inside_sorted) for x in t if isinstance(x, tuple))
+                flt_names = {n.targets[0].id for n in own_nodes(fn.node) if isinstance(n, ast.Assign) and len(n.targets) == 1 and isinstance(n.targets[0], ast.Name) and isinstance(n.value, ast.ListComp) and any(g.ifs for g in n.value.generators)}
+                def _len_of_filter(t_ast):
+                    txt = ast.unparse(t_ast)
+                    if any(f'len({nm})' in txt for nm in flt_names):
+                        return True
+                    return any(isinstance(x, ast.Call) and isinstance(x.func, ast.Name) and x.func.id == 'len' and x.args and isinstance(x.args[0], (ast.ListComp, ast.GeneratorExp)) and any(g.ifs for g in x.args[0].generators)
+                               for x in ast.walk(t_ast))
+                len_tested = any(_len_of_filter(t_) for t_, _v in res.assumed)
+                has_concat = any(isinstance(x, tuple) and x and x[0] == 'concat' for x in walk_term(rt))
+                if not has_concat and not len_tested:
+                    chk.bad(f'{prefix}.2', 'R15', site, f'{desc}: {ast.unparse(res.returned)[:160]}', 'only the least-evaluated layer of the candidates is cut at the cap, and nothing has established that the layer holds at least that many: '
+                            'the batch holds fewer than min(cap, #candidates) candidates whenever fewer candidates share the minimum count; ' + why)
+                elif rt[0] == 'concat':
+                    chk.bad(f'{prefix}.2', 'R15', site, f'{desc}: {ast.unparse(res.returned)[:160]}', 'the cap is applied to a part of the selection only (a concatenation whose parts are cut separately): the batch can hold more than '
+                            'args.combination_number_upper_bound candidates; ' + why)
+                elif _unsorted_rest(rt):
+                    chk.bad(f'{prefix}.2', 'R15', site, f'{desc}: {ast.unparse(res.returned)[:160]}', 'the candidates evaluated more often than the minimum are appended in candidate-list order, not in ascending order of their counts: '
+                            'when counts differ by more than one (a changed cap, a changed candidate set) more-evaluated candidates are selected before less-evaluated ones; ' + why)
+                else:
+                    chk.unsure(f'{prefix}.2', 'R15', site, f'{desc}: {ast.unparse(res.returned)[:160]}', 'the selection combines the least-evaluated layer of the candidates with a prefix: whether it equals the prefix of the stable ascending order by count is not decided; ' + why)
             elif filtered:
                 chk.bad(f'{prefix}.2', 'R15', site, f'{desc}: {ast.unparse(res.returned)[:160]}', 'the candidates are filtered by a predicate instead of being sorted by count and cut at the cap: a filter returns fewer than min(cap, #candidates) candidates or does not keep ties in list order; ' + why)
             elif known_shape and within_vocabulary(rt, forms):
@@ -309,6 +340,10 @@ def call_sites(repo, chk, sampler):
                 flag = f.params[3] if len(f.params) > 3 else 'is_3mr'
                 good = t[0] == 'sub' and t[1] in store_terms
                 key_ok = good and any(x == ('name', flag) for x in walk_term(t[2]))
+                if good and not key_ok and isinstance(counter, ast.Subscript):
+                    # the key may be a local that is bound differently on the two sides of a test of the flag
+                    from .common import param_deps
+                    key_ok = flag in param_deps(f, counter.slice, control=True)
                 setdef = t[0] == 'call' and t[1][0] == 'attr' and t[1][2] == 'setdefault' and t[1][1] in store_terms and len(t[2]) >= 1
                 if setdef:
                     key_ok = any(x == ('name', flag) for x in walk_term(t[2][0]))
@@ -348,10 +383,15 @@ def export(repo, chk):
     idx = None
     for i, e in enumerate(elts):
         src = e
-        if isinstance(e, ast.Name):
-            defs = [n for n in own_nodes(est.node) if isinstance(n, ast.Assign) and isinstance(n.targets[0], ast.Name) and n.targets[0].id == e.id]
-            if len(defs) == 1:
-                src = defs[0].value
+        for _ in range(4):
+            if isinstance(src, ast.Name):
+                defs = [n for n in own_nodes(est.node) if isinstance(n, ast.Assign) and isinstance(n.targets[0], ast.Name) and n.targets[0].id == src.id]
+                if len(defs) == 1:
+                    if isinstance(defs[0].value, ast.Name):
+                        e = defs[0].value          # the name the copy is first bound to: later stores go through it
+                    src = defs[0].value
+                    continue
+            break
         if 'GLOBAL_PRIOR_COMB_COUNTS' in ast.unparse(src):
             idx = i
             ok = ast.unparse(src) in ('GLOBAL_PRIOR_COMB_COUNTS.copy()', 'dict(GLOBAL_PRIOR_COMB_COUNTS)', 'GLOBAL_PRIOR_COMB_COUNTS', 'Counter(GLOBAL_PRIOR_COMB_COUNTS)')
@@ -361,7 +401,12 @@ def export(repo, chk):
                 for n in own_nodes(est.node):
                     tg = n.targets[0] if isinstance(n, ast.Assign) else (n.target if isinstance(n, ast.AugAssign) else None)
                     if isinstance(tg, ast.Subscript) and isinstance(tg.value, ast.Name) and tg.value.id == e.id:
-                        keyt = ast.unparse(tg.slice)
+                        kexp = tg.slice
+                        if isinstance(kexp, ast.Name):
+                            kd = [x for x in own_nodes(est.node) if isinstance(x, ast.Assign) and isinstance(x.targets[0], ast.Name) and x.targets[0].id == kexp.id]
+                            if len(kd) == 1:
+                                kexp = kd[0].value
+                        keyt = ast.unparse(kexp)
                         okk = isinstance(n, ast.Assign) and '.join(' in keyt and isinstance(n.value, ast.Name)
                         chk.expect(okk, 'C07.5b', 'R6', est.site(n), ast.unparse(n), 'only counts of constructed features are added, under their (string) names, values unmodified',
                                    'the exported mapping is modified after the copy: ranking-pair counts could be overwritten or changed')
